@@ -49,12 +49,40 @@ ConfigFails(s, fin) ==
         : k \in DOMAIN s.targets } \cup
   (IF fin.exit # 0 THEN {"exit"} ELSE {})
 
+(* C16: exactly the selected files are processed, each once *)
+CountIn(sq, x) == Cardinality({i \in DOMAIN sq : sq[i] = x})
+SelectFails(s, fin, disp) ==
+  LET processed == {o.path : o \in {q \in SeqToSet(fin.files) : q.tag = "cand" /\ ~q.same_bytes}}
+      want == SeqToSet(s.selected)
+      maybe == IF Has(s, "maybe") THEN SeqToSet(s.maybe) ELSE {}
+  IN (IF processed \ (want \cup maybe) # {} THEN {"unselected_processed"} ELSE {}) \cup
+     (IF want \ processed # {} THEN {"selected_skipped"} ELSE {}) \cup
+     (IF \E i \in DOMAIN disp : CountIn(disp, disp[i]) > 1 THEN {"processed_twice"} ELSE {}) \cup
+     (IF \E o \in SeqToSet(fin.files) : o.tag # "cand" /\ ~o.same_bytes THEN {"other_file_modified"} ELSE {}) \cup
+     (IF fin.created # <<>> THEN {"file_created"} ELSE {})
+
+(* C17: stdin mode writes the formatted text to stdout and nothing else *)
+StdinFails(s, fin) ==
+  LET m == IF Has(fin, "stdout_matches") THEN SeqToSet(fin.stdout_matches) ELSE {} IN
+  (IF fin.exit # s.expect.exit THEN {"exit"} ELSE {}) \cup
+  (CASE s.expect.stdout = "fmt"   -> IF (IF s.c.pathcase = "cfgdir" THEN "fmt_cfgdir" ELSE "fmt") \notin m THEN {"stdout_not_formatted_text"} ELSE {}
+     [] s.expect.stdout = "input" -> IF "input" \notin m THEN {"stdout_not_passthrough"} ELSE {}
+     \* (the summary format always prints a header and a footer: there "empty" means that no file is listed)
+     [] s.expect.stdout = "empty" -> IF (IF s.c.mode = "check_summary" THEN fin.n_diffs # 0 ELSE fin.stdout_len # 0) THEN {"stdout_not_empty"} ELSE {}
+     [] s.expect.stdout = "diff"  -> IF (IF s.c.mode = "check_summary" THEN fin.n_diffs = 0 ELSE fin.stdout_len = 0) THEN {"no_diff_printed"} ELSE {}
+     [] OTHER -> {}) \cup
+  (IF fin.created # <<>> \/ fin.deleted # <<>> THEN {"file_created"} ELSE {}) \cup
+  (IF \E o \in SeqToSet(fin.files) : ~o.same_bytes \/ ~o.same_mtime THEN {"file_modified"} ELSE {})
+
 TraceFinal ==
   /\ Next1 /\ E.ev = "Final" /\ Final
   /\ CASE Kind(sc) = "files" ->
             LET fs == FinalFails(sc, E, written, exited) IN
             Report(E, {V(ModeProp(sc), w) : w \in fs} \cup {V("C19", w) : w \in fs})
        [] Kind(sc) = "config" -> Report(E, {V("C15", w) : w \in ConfigFails(sc, E)})
+       [] Kind(sc) = "stdin" -> Report(E, {V("C17", w) : w \in StdinFails(sc, E)} \cup
+                                          (IF written # <<>> THEN {V("C17", "fs_write")} ELSE {}))
+       [] Kind(sc) = "select" -> Report(E, {V("C16", w) : w \in SelectFails(sc, E, dispatched)})
        [] OTHER -> TRUE
 
 TraceInit == CInit /\ l = 1
